@@ -57,6 +57,10 @@ pub(crate) struct State {
     pub(crate) weak_maps: RefCell<Vec<Rc<RefCell<dyn WeakMap>>>>,
     pub(crate) weak_self: Weak<Self>,
 
+    /// verification hook: every node ever created in this state
+    #[cfg(cormacrelf_incremental_rs_verif)]
+    pub(crate) verif_nodes: RefCell<Vec<WeakNode>>,
+
     #[cfg(debug_assertions)]
     pub(crate) only_in_debug: OnlyInDebug,
 }
@@ -147,6 +151,8 @@ impl State {
             handle_after_stabilisation: RefCell::new(vec![]),
             run_on_update_handlers: RefCell::new(vec![]),
             weak_maps: RefCell::new(vec![]),
+            #[cfg(cormacrelf_incremental_rs_verif)]
+            verif_nodes: RefCell::new(vec![]),
             #[cfg(debug_assertions)]
             only_in_debug: OnlyInDebug::default(),
         })
